@@ -38,7 +38,7 @@ package loadbalancer
 //@   props C11
 //@   requires unlocked(rr.mutex)
 //@   ensures appended: len(rr.backends) == old(len(rr.backends)) + 1 && rr.backends[old(len(rr.backends))] == backend
-//@   ensures kept: forall i int :: {rr.backends[i]} 0 <= i && i < old(len(rr.backends)) ==> rr.backends[i] == old(rr.backends[i])
+//@   ensures kept: forall i int :: {rr.backends[i]} {old(rr.backends[i])} 0 <= i && i < old(len(rr.backends)) ==> rr.backends[i] == old(rr.backends[i])
 //@   modifies rr.backends, elems(rr.backends)
 
 //@ func (*RoundRobinStrategy).RemoveBackend
@@ -252,7 +252,7 @@ package loadbalancer
 //@   props C11
 //@   requires unlocked(lc.mutex)
 //@   ensures appended: len(lc.backends) == old(len(lc.backends)) + 1 && lc.backends[old(len(lc.backends))] == backend
-//@   ensures kept: forall i int :: {lc.backends[i]} 0 <= i && i < old(len(lc.backends)) ==> lc.backends[i] == old(lc.backends[i])
+//@   ensures kept: forall i int :: {lc.backends[i]} {old(lc.backends[i])} 0 <= i && i < old(len(lc.backends)) ==> lc.backends[i] == old(lc.backends[i])
 //@   modifies lc.backends, elems(lc.backends)
 
 //@ func (*LeastConnectionsStrategy).RemoveBackend
@@ -284,7 +284,7 @@ package loadbalancer
 //@   props C11
 //@   requires unlocked(iph.mutex)
 //@   ensures appended: len(iph.backends) == old(len(iph.backends)) + 1 && iph.backends[old(len(iph.backends))] == backend
-//@   ensures kept: forall i int :: {iph.backends[i]} 0 <= i && i < old(len(iph.backends)) ==> iph.backends[i] == old(iph.backends[i])
+//@   ensures kept: forall i int :: {iph.backends[i]} {old(iph.backends[i])} 0 <= i && i < old(len(iph.backends)) ==> iph.backends[i] == old(iph.backends[i])
 //@   modifies iph.backends, elems(iph.backends)
 
 //@ func (*IPHashStrategy).RemoveBackend
@@ -316,7 +316,7 @@ package loadbalancer
 //@   props C11
 //@   requires unlocked(iph.mutex)
 //@   ensures appended: len(iph.backends) == old(len(iph.backends)) + 1 && iph.backends[old(len(iph.backends))] == backend
-//@   ensures kept: forall i int :: {iph.backends[i]} 0 <= i && i < old(len(iph.backends)) ==> iph.backends[i] == old(iph.backends[i])
+//@   ensures kept: forall i int :: {iph.backends[i]} {old(iph.backends[i])} 0 <= i && i < old(len(iph.backends)) ==> iph.backends[i] == old(iph.backends[i])
 //@   modifies iph.backends, elems(iph.backends)
 
 //@ func (*IPHashConsistentStrategy).RemoveBackend
@@ -528,5 +528,153 @@ package loadbalancer
 //@   props C20
 //@   requires rw.ResponseWriter != nil
 //@   ensures hijack_forwarded: implements(rw.ResponseWriter, http.Hijacker) && result2 == nil ==> rw.ResponseWriter.hijacked
+//@   ensures same_connection_as_the_wrapped_writer: implements(rw.ResponseWriter, http.Hijacker) ==> result0.dyn == hconn_tag(ptr(rw.ResponseWriter)) && result0.ref == hconn_val(ptr(rw.ResponseWriter)) && ptr(result1) == hbrw(ptr(rw.ResponseWriter))
 //@   ensures unsupported_is_an_error: !implements(rw.ResponseWriter, http.Hijacker) ==> result2 != nil
 //@   modifies http.ResponseWriter.hijacked
+
+// ---------------------------------------------------------------------------------------------------
+// WebSocket connection pool (C20). Per backend name one connPool; all pools obey the limits of the owner.
+//@ pred poolsOK(p *WebSocketPool) := p.pools != nil && p.maxIdle >= 0
+//@      && (forall k string :: {p.pools[k]} has(p.pools, k) ==> p.pools[k] != nil && allocated(p.pools[k]) && unlocked(p.pools[k].mu)
+//@            && len(p.pools[k].idle) <= max(p.maxIdle, 0))
+//@      && (forall k1 string :: forall k2 string :: {p.pools[k1], p.pools[k2]} has(p.pools, k1) && has(p.pools, k2) && k1 != k2 ==> p.pools[k1] != p.pools[k2])
+
+//@ func (*WebSocketPool).Put
+//@   props C20
+//@   requires unlocked(p.mu) && poolsOK(p)
+//@   ensures kept: poolsOK(p)
+//@   ensures nil_refused: conn == nil ==> !result
+//@   ensures never_more_than_max_idle: has(p.pools, backend) ==> len(p.pools[backend].idle) <= max(p.maxIdle, 0)
+//@   ensures pooled: result ==> has(p.pools, backend) && len(p.pools[backend].idle) >= 1
+//@             && p.pools[backend].idle[len(p.pools[backend].idle) - 1].conn == conn
+//@   ensures overflow_is_closed: !result && conn != nil ==> conn.closed
+//@   ensures earlier_entries_kept: old(has(p.pools, backend)) ==> p.pools[backend] == old(p.pools[backend]) && len(p.pools[backend].idle) >= old(len(p.pools[backend].idle))
+//@             && (forall i int :: {p.pools[backend].idle[i]} 0 <= i && i < old(len(p.pools[backend].idle)) ==> p.pools[backend].idle[i].conn == old(p.pools[backend].idle[i].conn))
+//@   modifies mapof(p.pools), connPool.idle, connPool.active, connPool.backend, connPool.idleTimeout, elems(p.pools[backend].idle), net.Conn.closed
+
+//@ func (*WebSocketPool).Stats
+//@   props C20
+//@   requires unlocked(p.mu) && poolsOK(p)
+//@   ensures has(p.pools, backend) ==> idle == len(p.pools[backend].idle) && active == p.pools[backend].active
+//@   ensures !has(p.pools, backend) ==> idle == 0 && active == 0
+
+//@ pred idleOK(c *connPool) := forall i int :: {c.idle[i]} 0 <= i && i < len(c.idle) ==> c.idle[i].conn != nil
+//@ func (*WebSocketPool).Get
+//@   props C20
+//@   requires unlocked(p.mu) && poolsOK(p) && (has(p.pools, backend) ==> idleOK(p.pools[backend]))
+//@   ensures kept: poolsOK(p) && (has(p.pools, backend) ==> idleOK(p.pools[backend]))
+//@   ensures unknown_backend: !has(p.pools, backend) ==> result == nil
+//@   ensures handed_out_is_removed_from_the_pool: result != nil ==> has(p.pools, backend) && len(p.pools[backend].idle) < old(len(p.pools[backend].idle))
+//@             && result == old(p.pools[backend].idle)[len(p.pools[backend].idle)].conn && p.pools[backend].active == wrap64(old(p.pools[backend].active) + 1)
+//@   ensures never_older_than_idle_timeout: result != nil ==> old(now()) - old(p.pools[backend].idle)[len(p.pools[backend].idle)].lastUsed <= p.pools[backend].idleTimeout
+//@   ensures remaining_entries_kept: has(p.pools, backend) ==> len(p.pools[backend].idle) <= old(len(p.pools[backend].idle))
+//@             && (forall i int :: {p.pools[backend].idle[i]} 0 <= i && i < len(p.pools[backend].idle) ==> p.pools[backend].idle[i].conn == old(p.pools[backend].idle[i].conn))
+//@   ensures skipped_stale_are_closed: has(p.pools, backend) ==> forall i int :: {old(p.pools[backend].idle[i])} len(p.pools[backend].idle) + (result != nil ? 1 : 0) <= i && i < old(len(p.pools[backend].idle))
+//@             ==> old(p.pools[backend].idle[i].conn).closed
+//@   ensures nothing_usable_left: result == nil && has(p.pools, backend) ==> len(p.pools[backend].idle) == 0
+//@   modifies connPool.idle, connPool.active, net.Conn.closed
+//@ loop (*WebSocketPool).Get #0
+//@   props C20
+//@   invariant same_store: pool.idle.base == old(pool.idle.base) && len(pool.idle) <= old(len(pool.idle)) && cap(pool.idle) == old(cap(pool.idle)) && 0 <= len(pool.idle)
+//@   invariant closed_tail: forall i int :: {pool.idle[i]} len(pool.idle) <= i && i < old(len(pool.idle)) ==> asiface(ptr(pool.idle[i].conn), net.Conn).closed
+//@   invariant nonnil: forall i int :: {pool.idle[i]} 0 <= i && i < old(len(pool.idle)) ==> pool.idle[i].conn != nil
+//@   invariant counters: pool.active == old(pool.active) && wlocked(pool.mu)
+//@   decreases len(pool.idle)
+//@   modifies pool.idle, net.Conn.closed
+
+// ---------------------------------------------------------------------------------------------------
+// Runtime reconfiguration (C11). inS(s, b): backend b is held by strategy value s.
+//@ pred inS(s Strategy, b *Backend) :=
+//@        (dyntype(s, *RoundRobinStrategy) && inRR(asptr(s, *RoundRobinStrategy), b))
+//@     || (dyntype(s, *LeastConnectionsStrategy) && inLC(asptr(s, *LeastConnectionsStrategy), b))
+//@     || (dyntype(s, *WeightedRoundRobinStrategy) && inWRR(asptr(s, *WeightedRoundRobinStrategy), b))
+//@     || (dyntype(s, *IPHashStrategy) && inIPH(asptr(s, *IPHashStrategy), b))
+//@     || (dyntype(s, *IPHashConsistentStrategy) && inIPHC(asptr(s, *IPHashConsistentStrategy), b))
+//@ pred namesUnique(lb *LoadBalancer) := forall a *Backend :: forall b *Backend :: inPool(lb, a) && inPool(lb, b) && a != b ==> a.Name != b.Name
+//@ pred adminOK(lb *LoadBalancer) := lbOK(lb) && unlocked(lb.mutex) && noStrategyLocks() && poolOK(lb) && unlocked(lb.metricsCollector.metrics.mutex) && bmCellsOK(lb.metricsCollector)
+
+//@ pred wrrDistinct(s *WeightedRoundRobinStrategy) := forall i int :: forall j int :: 0 <= i && i < j && j < len(s.backends) ==> s.backends[i].backend != s.backends[j].backend
+//@ pred distinctPool(lb *LoadBalancer) :=
+//@        (dyntype(lb.strategy, *RoundRobinStrategy) ==> rrDistinct(asptr(lb.strategy, *RoundRobinStrategy)))
+//@     && (dyntype(lb.strategy, *LeastConnectionsStrategy) ==> distinct_LeastConnectionsStrategy(asptr(lb.strategy, *LeastConnectionsStrategy)))
+//@     && (dyntype(lb.strategy, *WeightedRoundRobinStrategy) ==> wrrDistinct(asptr(lb.strategy, *WeightedRoundRobinStrategy)))
+//@     && (dyntype(lb.strategy, *IPHashStrategy) ==> distinct_IPHashStrategy(asptr(lb.strategy, *IPHashStrategy)))
+//@     && (dyntype(lb.strategy, *IPHashConsistentStrategy) ==> distinct_IPHashConsistentStrategy(asptr(lb.strategy, *IPHashConsistentStrategy)))
+
+//@ func (*WeightedRoundRobinStrategy).AddBackend
+//@   props C11
+//@   requires unlocked(wrr.mutex)
+//@   ensures appended: len(wrr.backends) == old(len(wrr.backends)) + 1 && wrr.backends[old(len(wrr.backends))] != nil && fresh(wrr.backends[old(len(wrr.backends))])
+//@             && wrr.backends[old(len(wrr.backends))].backend == backend && wrr.backends[old(len(wrr.backends))].currentWeight == 0
+//@   ensures kept: forall i int :: {wrr.backends[i]} {old(wrr.backends[i])} 0 <= i && i < old(len(wrr.backends)) ==> wrr.backends[i] == old(wrr.backends[i])
+//@   modifies wrr.backends, elems(wrr.backends)
+
+//@ func (*WeightedRoundRobinStrategy).RemoveBackend
+//@   props C11
+//@   requires unlocked(wrr.mutex) && wrrOK(wrr) && wrrDistinct(wrr)
+//@   ensures absent_unchanged: (forall i int :: 0 <= i && i < old(len(wrr.backends)) ==> old(wrr.backends[i]).backend != backend)
+//@             ==> len(wrr.backends) == old(len(wrr.backends)) && (forall i int :: {wrr.backends[i]} 0 <= i && i < len(wrr.backends) ==> wrr.backends[i] == old(wrr.backends[i]))
+//@   ensures removed: (exists i int :: 0 <= i && i < old(len(wrr.backends)) && old(wrr.backends[i]).backend == backend)
+//@             ==> len(wrr.backends) == old(len(wrr.backends)) - 1 && (forall i int :: {wrr.backends[i]} 0 <= i && i < len(wrr.backends) ==> wrr.backends[i].backend != backend)
+//@   ensures others_kept: forall j int :: {old(wrr.backends[j])} 0 <= j && j < old(len(wrr.backends)) && old(wrr.backends[j]).backend != backend
+//@             ==> exists i int :: {wrr.backends[i]} 0 <= i && i < len(wrr.backends) && wrr.backends[i] == old(wrr.backends[j])
+//@   ensures nothing_new: forall i int :: {wrr.backends[i]} 0 <= i && i < len(wrr.backends) ==> exists j int :: {old(wrr.backends[j])} 0 <= j && j < old(len(wrr.backends)) && wrr.backends[i] == old(wrr.backends[j])
+//@   modifies wrr.backends, elems(wrr.backends)
+//@ loop (*WeightedRoundRobinStrategy).RemoveBackend #0
+//@   props C11
+//@   invariant idx: -1 <= rangeindex && rangeindex < len(wrr.backends)
+//@   invariant notfound: forall k int :: {wrr.backends[k]} 0 <= k && k <= rangeindex ==> wrr.backends[k].backend != backend
+//@   decreases len(wrr.backends) - rangeindex
+
+//@ func (*LoadBalancer).RemoveBackend
+//@   props C11
+//@   requires adminOK(lb) && namesUnique(lb) && distinctPool(lb) && poolNonNil(lb)
+//@   ensures no_backend_of_that_name_is_left: forall b *Backend :: inPool(lb, b) ==> b.Name != name
+//@   ensures others_are_kept: forall b *Backend :: old(inPool(lb, b)) && b.Name != name ==> inPool(lb, b)
+//@   ensures nothing_new: forall b *Backend :: inPool(lb, b) ==> old(inPool(lb, b))
+//@   ensures same_strategy: lb.strategy == old(lb.strategy)
+//@   modifies RoundRobinStrategy.backends, LeastConnectionsStrategy.backends, WeightedRoundRobinStrategy.backends, IPHashStrategy.backends, IPHashConsistentStrategy.backends,
+//@            key:[]*loadbalancer.Backend, key:[]*loadbalancer.weightedBackend
+//@ loop (*LoadBalancer).RemoveBackend #0
+//@   props C11
+//@   invariant idx: rangeindex < len(ranged)
+//@   invariant not_found_yet: forall k int :: {ranged[k]} 0 <= k && k <= rangeindex ==> ranged[k].Name != name
+//@   decreases len(ranged) - rangeindex
+
+//@ func (*LoadBalancer).AddBackend
+//@   props C11 C05 C03
+//@   requires adminOK(lb) && namesUnique(lb) && poolNonNil(lb)
+//@   ensures added_is_listed_and_eligible: result == nil ==> exists b *Backend :: inPool(lb, b) && fresh(b) && b.Name == backendCfg.Name && b.IsHealthy
+//@             && b.Weight == max(1, backendCfg.Weight) && b.ActiveConnections == 0 && b.ReverseProxy != nil
+//@   ensures existing_are_kept: forall b *Backend :: old(inPool(lb, b)) ==> inPool(lb, b)
+//@   ensures only_the_new_one_is_new: forall b *Backend :: inPool(lb, b) && !fresh(b) ==> old(inPool(lb, b))
+//@   ensures failed_add_changes_nothing: result != nil ==> forall b *Backend :: inPool(lb, b) <==> old(inPool(lb, b))
+//@   ensures names_stay_unique: namesUnique(lb)
+//@   ensures same_strategy: lb.strategy == old(lb.strategy)
+//@   ensures cells: bmCellsOK(lb.metricsCollector)
+//@   modifies RoundRobinStrategy.backends, LeastConnectionsStrategy.backends, WeightedRoundRobinStrategy.backends, IPHashStrategy.backends, IPHashConsistentStrategy.backends,
+//@            key:[]*loadbalancer.Backend, key:[]*loadbalancer.weightedBackend, mapof(lb.metricsCollector.metrics.BackendMetrics), metrics.BackendMetrics.IsHealthy, metrics.BackendMetrics.LastHealthCheck
+//@ loop (*LoadBalancer).AddBackend #0
+//@   props C11 C05 C03
+//@   invariant idx: rangeindex < len(ranged)
+//@   invariant no_such_name_yet: forall k int :: {ranged[k]} 0 <= k && k <= rangeindex ==> ranged[k].Name != backendCfg.Name
+//@   decreases len(ranged) - rangeindex
+
+//@ pred knownStrategy(name string) := name == "round_robin" || name == "least_connections" || name == "weighted_round_robin" || name == "ip_hash" || name == "ip_hash_consistent"
+//@ func (*LoadBalancer).SetStrategy
+//@   props C11
+//@   requires adminOK(lb) && poolNonNil(lb)
+//@   ensures error_iff_unknown_strategy: result == nil <==> knownStrategy(name)
+//@   ensures unknown_name_changes_nothing: result != nil ==> lb.strategy == old(lb.strategy) && lb.config.LoadBalancer.Strategy == old(lb.config.LoadBalancer.Strategy)
+//@   ensures switch_keeps_exactly_the_same_backends: result == nil ==> (forall b *Backend :: old(inPool(lb, b)) ==> inPool(lb, b)) && (forall b *Backend :: inPool(lb, b) ==> old(inPool(lb, b)))
+//@   ensures name_recorded: result == nil ==> lb.config.LoadBalancer.Strategy == name
+//@   modifies lb.strategy, lb.config.LoadBalancer.Strategy, RoundRobinStrategy.backends, LeastConnectionsStrategy.backends, WeightedRoundRobinStrategy.backends, IPHashStrategy.backends,
+//@            IPHashConsistentStrategy.backends, key:[]*loadbalancer.Backend, key:[]*loadbalancer.weightedBackend
+//@ loop (*LoadBalancer).SetStrategy #0
+//@   props C11
+//@   invariant idx: rangeindex < len(ranged)
+//@   invariant moved_so_far: forall k int :: {ranged[k]} 0 <= k && k <= rangeindex ==> inS(newStrategy, ranged[k])
+//@   invariant nothing_else: forall b *Backend :: inS(newStrategy, b) ==> exists k int :: {ranged[k]} 0 <= k && k <= rangeindex && ranged[k] == b
+//@   invariant new_is_separate: ptr(newStrategy) != 0 && !preexisting(ptr(newStrategy)) && lb.strategy == old(lb.strategy)
+//@   invariant snapshot_kept: forall k int :: {ranged[k]} 0 <= k && k < len(ranged) ==> ranged[k] == old(ranged[k])
+//@   decreases len(ranged) - rangeindex
